@@ -82,29 +82,24 @@ def r03_1_numbering(chk):
     resets = [s for s in stores_in(it_) if s.attr == counter and try_const(s.value) == 0]
     chk.require(bool(resets), "R03.1", "counter-reset-per-iteration", "the frame counter is not reset when iteration "
                 "starts: a second write would continue the numbering", it_.where)
-    # body layout
-    fd = ix.get_class("FrameData")
-    body = fd.lookup("_make_body_bytes")
-    chk.consult(body)
-    first = None
-    for n in walk_local(body.node):
-        if isinstance(n, (ast.Assign, ast.Return)) and n.value is not None and "obname" in norm(n.value):
-            first = n.value
-            break
-    parts = []
-    e = first
-    while isinstance(e, ast.BinOp) and isinstance(e.op, ast.Add):
-        parts.insert(0, e.right)
-        e = e.left
-    if e is not None:
-        parts.insert(0, e)
-    ok = len(parts) >= 2 and norm(parts[0]) == "self._frame.obname" and \
-        norm(parts[1]) == "write_struct_uvari(self._frame_number)"
+    # body layout (value-flow normal form of FrameData._make_body_bytes: helpers and temporaries looked through)
+    from ..terms import SELF, A, is_call, call_arg, pp
+    from ._layout import row_body
+    rb = row_body(chk)
+    body = rb.func
+
+    def is_frame_number(t):
+        if is_call(t, "write_struct_uvari", 1):
+            return t[2][0] == A(SELF, "_frame_number")
+        # the UVARI emitter inlined: every branch packs the frame number (C06 R06.2 decides the forms)
+        from ..terms import alternatives, contains
+        alts = [a for _, a in alternatives(t)]
+        return len(alts) == 3 and all(is_call(a, "convert") and contains(a, A(SELF, "_frame_number")) for a in alts)
+    ok = len(rb.head) == 2 and rb.head[0] == A(SELF, "_frame", "obname") and is_frame_number(rb.head[1])
     chk.require(ok, "R03.1", "body-starts-obname-then-frame-number",
-                f"the FDATA body starts with {[norm(p) for p in parts[:2]]}", body.where)
-    loops = [n for n in walk_local(body.node) if isinstance(n, ast.For)]
-    ok = len(loops) == 1 and norm(loops[0].iter) == "self._slots" and len(loops[0].body) == 1
-    chk.require(ok or (len(parts) == 3 and "self._slots" in norm(parts[2])), "R03.1", "one-piece-per-slot-in-row-order",
+                f"the FDATA body starts with {[pp(p)[:40] for p in rb.head[:2]]}", body.where)
+    ok = len(rb.pieces) == 1 and rb.pieces[0][0] == A(SELF, "_slots") and not rb.tail
+    chk.require(ok, "R03.1", "one-piece-per-slot-in-row-order",
                 "the slots of the row are not appended one by one in the row's own order", body.where)
     for m in memo_sites(ix):
         if m.func.cls is not None and m.func.cls.name in ("FrameData", "MultiFrameData"):
@@ -112,36 +107,33 @@ def r03_1_numbering(chk):
 
 
 def r03_2_byte_order(chk):
-    ix = chk.ix
-    sdw = ix.get_class("SourceDataWrapper")
-    dd = sdw.lookup("determine_dtypes")
-    chk.consult(dd)
-    rd = ReachingDefs(dd)
-    apps = [n for n in walk_local(dd.node) if isinstance(n, ast.Call) and isinstance(n.func, ast.Attribute)
-            and n.func.attr == "append" and norm(n.func.value) == "dtypes"]
-    chk.floor("field dtype appends in determine_dtypes", len(apps), 1)
-    for a in apps:
-        at = rd.stmt_containing(a)
-        flows = _dtype_component_flows(rd, a.args[0], at)
-        bad = [fl for fl in flows if not _normalised(fl)]
-        chk.require(bool(flows) and not bad, "R03.2", f"field-dtype-native-on-every-path:{norm(a.args[0])[:40]}",
+    from ..terms import SELF, A, K, is_call, call_arg, pp, subterms, contains
+    from ._layout import field_plan, row_body
+    fp = field_plan(chk)
+    chk.floor("field descriptor alternatives in determine_dtypes", len(fp.alts), 1)
+    for conds, tup in fp.alts:
+        comps = tup[1] if tup[0] == "tuple" else ()
+        nt = comps[1] if len(comps) > 1 else None
+        ok = nt is not None and is_call(nt, "newbyteorder", 1) and nt[2][0] in (K("="), K("N"), K("native")) and \
+            nt[1][0] == "attr" and is_call(nt[1][1], "dtype", 1)
+        chk.require(ok, "R03.2", f"field-dtype-native-on-every-path:{pp(nt)[:40] if nt else '?'}",
                     f"a field dtype can reach the chunk dtype without being normalised to native byte order "
-                    f"(`{bad[0] if bad else ''}`): FrameData swaps unconditionally, so big-endian 2-D data would be "
-                    f"written little-endian", f"{dd.module.relpath}:{a.lineno}")
+                    f"(`{pp(nt)[:70] if nt else ''}`): FrameData swaps unconditionally, so big-endian 2-D data would be "
+                    f"written little-endian", fp.func.where)
     # FrameData: every slot swapped exactly once, copying form
-    body = ix.get_method("FrameData", "_make_body_bytes")
-    swaps = [n for n in walk_local(body.node) if isinstance(n, ast.Call) and isinstance(n.func, ast.Attribute)
-             and n.func.attr == "byteswap"]
-    tob = [n for n in walk_local(body.node) if isinstance(n, ast.Call) and isinstance(n.func, ast.Attribute)
-           and n.func.attr == "tobytes"]
-    ok = bool(tob) and all(isinstance(t.func.value, ast.Call) and isinstance(t.func.value.func, ast.Attribute)
-                           and t.func.value.func.attr in ("byteswap", "astype") for t in tob)
-    chk.require(ok and len(swaps) == len(tob), "R03.2", "each-slot-swapped-once",
+    rb = row_body(chk)
+    body = rb.func
+    ok = len(rb.pieces) == 1
+    for it, el, piece in rb.pieces:
+        swaps = [x for x in subterms(piece) if is_call(x, "byteswap")]
+        ok = ok and is_call(piece, "tobytes", 0) and len(swaps) == 1 and piece[1][1] == swaps[0] and \
+            swaps[0][1][1] == el
+        for sw in swaps:
+            inpl = sw[2] or any(k == "inplace" for k, _ in sw[3])
+            chk.require(not inpl, "R03.2", f"copying-swap:{pp(sw)[:40]}", "in-place byte swap", body.where,
+                        nontrivial=False)
+    chk.require(ok, "R03.2", "each-slot-swapped-once",
                 "a slot's bytes are emitted without (or with more than) one byte swap", body.where)
-    for sw in swaps:
-        inpl = sw.args or any(k.arg == "inplace" for k in sw.keywords)
-        chk.require(not inpl, "R03.2", f"copying-swap:{norm(sw)[:40]}", "in-place byte swap", body.where,
-                    nontrivial=False)
 
 
 def _dtype_component_flows(rd, tup, at):
@@ -233,10 +225,15 @@ def r03_4_slot_order(chk):
         chk.require("for ch in self.channels.value" in s and p.kind == "property"
                     and not any("cached" in d for d in p.decorators), "R03.4", f"mapping-from-frame-channels:{prop}",
                     f"FrameItem.{prop} is not recomputed from the frame's channel list on every use", p.where)
-    dd = ix.get_method("SourceDataWrapper", "determine_dtypes")
-    loops = [n for n in walk_local(dd.node) if isinstance(n, ast.For)]
-    chk.require(len(loops) == 1 and norm(loops[0].iter) == "mapping.items()", "R03.4", "dtype-fields-in-mapping-order",
-                "the chunk dtype's fields are not created by iterating the channel mapping", dd.where)
+    from ..terms import is_call as _is_call
+    from ._layout import field_plan
+    fp = field_plan(chk)
+    it = fp.iterable
+    ok = _is_call(it, "items", 0) and it[1][1] == ("param", fp.func.param_names[1]) and all(
+        t[0] == "tuple" and t[1] and t[1][0] == ("sub", fp.elem, ("const", 0)) for _, t in fp.alts)
+    chk.require(ok, "R03.4", "dtype-fields-in-mapping-order",
+                "the chunk dtype's fields are not created by iterating the channel mapping (one field per entry, named "
+                "by its key)", fp.func.where)
 
 
 def r03_5_chunks(chk):
